@@ -93,7 +93,7 @@ def is_const(e, value):
     return isinstance(e, ast.Constant) and e.value is value or (isinstance(e, ast.Constant) and e.value == value and type(e.value) is type(value))
 
 
-MIRROR = {ast.Lt: ast.Gt, ast.Gt: ast.Lt, ast.LtE: ast.GtE, ast.GtE: ast.LtE, ast.Eq: ast.Eq, ast.NotEq: ast.NotEq}
+MIRROR = {ast.Lt: ast.Gt, ast.Gt: ast.Lt, ast.LtE: ast.GtE, ast.GtE: ast.LtE, ast.Eq: ast.Eq, ast.NotEq: ast.NotEq, ast.Is: ast.Is, ast.IsNot: ast.IsNot}
 
 
 def compare_of(e, left_pred, right_pred):
